@@ -3,7 +3,7 @@
 wt=$1; patch=$2; label=$3
 git -C $wt checkout -q -- . && git -C $wt apply $patch || { echo "$label: patch failed"; exit 9; }
 out=/tmp/matrix/$label; mkdir -p $out
-for p in C05 C07 C18 C20; do
+for p in ${MATRIX_PROPS:-C05 C07 C18 C20}; do
   ( cd "$(dirname "$(readlink -f "$0")")/.." && FSIM_REPO=$wt FSIM_OUT=$out FSIM_JOBS=${FSIM_JOBS:-8} ./check $p quick > $out/$p.log 2>&1; echo "exit=$?" >> $out/$p.log )
   cls=$(grep "   config=" $out/$p.log | sed 's/.*class=\([^ ]*\).*/\1/' | sort | uniq -c | sort -rn | head -3 | awk '{printf "%s(%s) ", $2, $1}')
   echo "$label $p $(tail -1 $out/$p.log) violations=$(grep -c '^VIOLATION' $out/$p.log) $cls"
